@@ -52,30 +52,31 @@ type Runner struct {
 	maxAcked uint64
 	failed   map[uint64]string // payloads whose call definitely failed -> error
 
-	tapePos     int
-	cut         map[[2]string]bool
-	refuse      bool // cuts fail fast instead of black-holing
-	lossy       bool
-	quiet       bool
-	faults      []*faultSpec
-	Feat        map[string]int
-	lastFaultMs int64
-	Log         []string
-	opts        RunOpts
-	notif       map[*sim.Instance]*notifyRec
-	isoTerm     map[string]uint64
-	stop        bool
-	ist         map[*sim.Instance]*instState
-	restores    []*restoreRec
-	restoreSeq  int
-	wall0       int64
-	wallBudget  time.Duration
-	Aborted     string
-	leaseCuts   []*leaseCut
-	isolated    map[string]*isoRec
-	rejoins     []*rejoinRec
-	atRest      bool
-	featMu      sync.Mutex
+	tapePos        int
+	cut            map[[2]string]bool
+	refuse         bool // cuts fail fast instead of black-holing
+	lossy          bool
+	dropAppendAcks bool // acknowledgements of AppendEntries that carry entries are lost (inheritedtail macro)
+	quiet          bool
+	faults         []*faultSpec
+	Feat           map[string]int
+	lastFaultMs    int64
+	Log            []string
+	opts           RunOpts
+	notif          map[*sim.Instance]*notifyRec
+	isoTerm        map[string]uint64
+	stop           bool
+	ist            map[*sim.Instance]*instState
+	restores       []*restoreRec
+	restoreSeq     int
+	wall0          int64
+	wallBudget     time.Duration
+	Aborted        string
+	leaseCuts      []*leaseCut
+	isolated       map[string]*isoRec
+	rejoins        []*rejoinRec
+	atRest         bool
+	featMu         sync.Mutex
 }
 
 type RunOpts struct {
@@ -221,6 +222,24 @@ func (r *Runner) policy(m *sim.Msg, resp bool) sim.Verdict {
 			return sim.VRefuse
 		}
 		return sim.VDrop
+	}
+	if r.dropAppendAcks && resp && !r.quiet {
+		if ae, ok := m.Req.(*raft.AppendEntriesRequest); ok && len(ae.Entries) > 0 {
+			return sim.VDrop
+		}
+	}
+	// link latency (not a fault; switched off for the quiet phase, whose
+	// bounds are stated for an undisturbed network)
+	if r.P.LatencyMs > 0 && !r.quiet {
+		done := &m.LatReq
+		if resp {
+			done = &m.LatResp
+		}
+		if !*done {
+			*done = true
+			m.ReadyAt = r.W.Now() + 1 + int64(int(r.tape())%r.P.LatencyMs)
+			return sim.VHold
+		}
 	}
 	if !r.lossy || r.quiet {
 		return sim.VDeliver
@@ -535,6 +554,9 @@ func (r *Runner) judgeReturn(op *ClientOp) {
 			ar, ok := op.resp.(*sim.ApplyResult)
 			if !ok || ar == nil || ar.Index != op.Index || ar.Payload != op.Payload || ar.Srv != op.Srv || ar.Gen != op.Gen {
 				w.ViolateLocked("C08", "R1", "C08/R1/response-not-from-local-fsm-for-this-entry", "apply #%d payload %d index %d on %s/%d got Response %+v", op.ID, op.Payload, op.Index, op.Srv, op.Gen, op.resp)
+			}
+			if op.inst.FSM.BatchOlder[op.Index] {
+				r.feat("acked-entry-applied-in-one-batch-behind-an-inherited-command")
 			}
 			// C08/R2 real-time order
 			if op.Index <= op.ackedBefore {
